@@ -662,3 +662,25 @@ Lemma namesake_regression :
   /\ build namesake_prog [2; 4; 3; 5]%positive
     = Ok (mk_graph [2; 4; 3; 5] [mk_edge EAssoc 2 3 6; mk_edge EAssoc 2 5 7])%positive.
 Proof. repeat split; vm_compute; reflexivity. Qed.
+
+(* outside the fragment (open findings C17-e, C17-f): the name the retry has to supply has a namesake in the diagram.
+   m1: Item (2).  m3: another class Item (3, __name__ of 2) and Parent (4) { pit : Optional["Item"] } (its own).
+   m2 (no class Item; imports m1's under TYPE_CHECKING only): User (5) { item : Optional["Item"] } and
+   Child (6) (Parent) { citem : Optional["Item"] }.
+   (e) the missing name is looked up among the diagram's classes by __name__, the last one wins: User.item depends on the order;
+   (f) the local namespace is applied to every class of the MRO: Child's inherited field pit leaves Parent's own Item. *)
+Definition missing_prog : prog :=
+  [ Build_decl 2 DDataclass [] [Build_fdecl 10 false (Builtin BInt) true false] [] 2;
+    Build_decl 3 DDataclass [] [Build_fdecl 11 false (Builtin BInt) true false] [] 2;
+    Build_decl 4 DDataclass [] [Build_fdecl 7 false (Optional (Fwd 3)) true false] [] 4;
+    Build_decl 5 DDataclass [] [Build_fdecl 8 false (Optional (Fwd 2)) true false] [2] 5;
+    Build_decl 6 DDataclass [4] [Build_fdecl 9 false (Optional (Fwd 2)) true false] [2] 6 ]%positive.
+Lemma missing_namesake_refuted :
+  (build missing_prog [5; 2; 3]%positive = Ok (mk_graph [5; 2; 3] [mk_edge EAssoc 5 3 8])%positive
+   /\ g_edges (spec_graph missing_prog [5; 2; 3]%positive) = [mk_edge EAssoc 5 2 8]%positive
+   /\ build missing_prog [5; 3; 2]%positive = Ok (mk_graph [5; 3; 2] [mk_edge EAssoc 5 2 8])%positive)
+  /\ (build missing_prog [4; 6; 3; 2]%positive
+        = Ok (mk_graph [4; 6; 3; 2] [mk_edge EInh 4 6 1; mk_edge EAssoc 4 3 7; mk_edge EAssoc 6 2 7; mk_edge EAssoc 6 2 9])%positive
+      /\ g_edges (spec_graph missing_prog [4; 6; 3; 2]%positive)
+        = [mk_edge EInh 4 6 1; mk_edge EAssoc 4 3 7; mk_edge EAssoc 6 2 9; mk_edge EAssoc 6 3 7]%positive).
+Proof. repeat split; vm_compute; reflexivity. Qed.
